@@ -1531,3 +1531,1110 @@ class Exec2(Exec):
         exc = self.block(s.body[0].body, st2)
         tpl = '(match find_first (fun %s => %s) %s with Some %s => @@0@@ | None => @@1@@ end)' % (var, self.boolterm(c), it.s, var)
         return Br2(tpl, (exc, self.block(rest, st)))
+
+
+# ======================================================================================================================
+# Third layer (C16, C17, C12): the dict / list / object code of workspace.py, patchset.py, mixins.py.  Nothing above this line
+# changes meaning.  Class Exec3 adds to Exec2:
+#   * text: a python str is a term of type `string` (STR); `==` / `!=` is String.eqb; `s in l` on a list / set / tuple of strings is
+#     mem_str s l, on a list of records `existsb (R_eqb s) l` (python == on the dicts of one record type);
+#   * typed JSON documents: a python dict whose shape is a record type of the hand model (`records`: key -> projection, nested keys for
+#     sub-dicts that have no record of their own) is a term of that type: d['k'] is the projection, a dict display with exactly the keys
+#     of one record type is its constructor, dict(d, k=v) the record with one field replaced;
+#   * python dicts used as tables: DICT(k, v) is an association list (insertion ordered): .items() the list itself, `k in d`
+#     mem_str k (map fst d), d.get(k, x) `match assoc k d with Some y => y | None => x end`, dict(pairs) dict_of_pairs;
+#     property modules may register further table types (`dict_types`) with their own mem / get / set terms;
+#   * sets: {f x for x in l} is dedup (map f l) (first occurrences, in order); s.intersection(it) filters s by membership in it;
+#     collections.Counter(it).items() pairs every distinct element with its number of occurrences (count_str); the truth value of a
+#     list / set is `nonempty`;
+#   * in-place updates through places: v['k'] = x, l[i]['k'] = x (update_at i), l.append(x), l.sort(key=lambda e: ..) (ssort / psort
+#     on one / two text keys), d.setdefault(k, []).append(x) (dl_append);
+#   * `for x in l:` loops in general: the variables (and attributes of self) the body assigns or updates in place, that are bound before
+#     the loop, are the state of a fold - `fold_left` when no path of the body raises, `foldM` (stops at the first error) otherwise;
+#     a loop whose body updates nothing but its own loop variable in place rewrites the list it iterates over (`map`);
+#   * `try: B except E: H` in general: the paths of B ending in E continue with H;
+#   * values copied / shared: copy.deepcopy(x) is x, marked private at every depth; list(x) / dict(x) / displays / comprehensions are
+#     private at the top only.  An in-place update of something that is not private (it may be the caller's document, or a stored
+#     patch) is refused (TieBroken) - so the deep copies the source takes are part of what is translated;
+#   * objects of translated classes (Obj): attributes assigned by __init__, @property bodies inlined on access;
+#   * calls of other translated functions are calls of their generated definitions (`emit_call`), a possible error being passed on
+#     (`match .. with Err e => Err e | Ok x => ..`); `f(a, *l)` into a callee with two more parameters is `match l with [x; y] => ..`
+#     with TypeError otherwise.
+# Generated definitions return `result T` (constructors Ok / Err of the hand model or of the generated prelude) when a path raises.
+STR = 'string'
+UNIT = 'unit'
+
+
+def TUPLE(t):
+    return ('tuple', t)
+
+
+def SET(t):
+    return ('set', t)
+
+
+def DICT(k, v):
+    return ('dict', k, v)
+
+
+PRELUDE3 = '''(* helpers of the translator (harness/props/tie_translate.py, third layer) *)
+Fixpoint foldM {X S : Type} (f : S -> X -> result S) (l : list X) (s : S) : result S :=      (* `for x in l:` whose body may raise *)
+  match l with [] => Ok s | x :: r => match f s x with Ok s' => foldM f r s' | Err e => Err e end end.
+'''
+
+
+def coqty3(t, num='V N'):
+    if isinstance(t, tuple) and t[0] in ('tuple', 'set'):
+        return 'list (%s)' % coqty3(t[1], num)
+    if isinstance(t, tuple) and t[0] == 'dict':
+        return 'list (%s * %s)' % (coqty3(t[1], num), coqty3(t[2], num))
+    if isinstance(t, tuple) and t[0] in ('list', 'option'):
+        return '%s (%s)' % (t[0], coqty3(t[1], num))
+    if isinstance(t, tuple) and t[0] == 'prod':
+        return '(%s * %s)' % (coqty3(t[1], num), coqty3(t[2], num))
+    return coqty(t, num)
+
+
+def is_seq(v):
+    return isinstance(v, T) and isinstance(v.ty, tuple) and v.ty[0] in ('list', 'tuple', 'set')
+
+
+def fresh_of(v):
+    return getattr(v, 'fresh', 0)
+
+
+def mk(s, ty, fresh=0):
+    t = T(s, ty)
+    t.fresh = fresh
+    return t
+
+
+def coq_string(s):
+    if not all(32 <= ord(c) < 127 for c in s):
+        raise TB('non-ASCII text literal %r' % s)
+    return '"%s"%%string' % s.replace('"', '""')
+
+
+class Obj:
+    """object of a translated class: attributes (values), identity (a term, or None)"""
+
+    def __init__(self, cls, attrs, ident=None):
+        self.cls, self.attrs, self.ident = cls, dict(attrs), ident
+
+    def __repr__(self):
+        return 'Obj(%s)' % self.cls.name
+
+
+class View:
+    """a sub-dict of a record that has no record type of its own (measurement['config']): base term + the keys below it"""
+
+    def __init__(self, base, schema):
+        self.base, self.schema = base, schema
+
+
+class Rec:
+    """record under construction / opened for an update: fields given so far by projection name, the rest read from `base`"""
+
+    def __init__(self, rtype, fields, base=None, fresh=1):
+        self.rtype, self.fields, self.base, self.fresh = rtype, dict(fields), base, fresh
+
+
+class Method:
+    def __init__(self, obj, fn):
+        self.obj, self.fn = obj, fn
+
+
+class Exec3(Exec2):
+    records = {}          # record type -> {key: (projection, type) | {key: (projection, type)}}
+    rec_order = {}        # record type -> projections in constructor order
+    rec_eqb = {}          # record type -> python == on two documents of that type
+    rec_dflt = {}         # record type -> a default element (for nth)
+    rec_open = ()         # record types with optional keys: never recognised from a dict display
+    dict_types = {}       # Coq type name -> handler object with mem / get / set (see TableType)
+    exc_names = {}        # python exception class -> constructor of the error type
+    dflt = dict(Exec2.dflt, **{STR: '""%string'})
+
+    def __init__(self, classes=None):
+        super().__init__()
+        self.classes = classes or {}        # class name -> ast.ClassDef
+        self.cls = None                     # the class whose method is being translated (for self.<property>)
+        self.gens = {}                      # 'function' | ('Class', 'method') -> (FunctionDef, handler(bound arguments, node, st) -> value):
+                                            # functions translated on their own, called through their generated definitions
+
+    # ---- hooks ---------------------------------------------------------------------------------------------------------------
+    def loop_indexed(self, s, st):
+        """the loop constructs one object per iteration: iterate over (position, element)"""
+        return False
+
+    def exc_term(self, name):
+        if name.startswith('@'):
+            return name[1:]
+        if name in self.exc_names:
+            return self.exc_names[name]
+        raise TB('exception %s has no counterpart in the model' % name)
+
+    def construct(self, cls, args, kwargs, node, st):
+        raise TB('construction of a %s (line %d)' % (cls.name, node.lineno))
+
+    def method_ext(self, base, name, args, kwargs, node, st):
+        raise TB('method .%s of %r (line %d)' % (name, base, node.lineno))
+
+    # ---- terms -----------------------------------------------------------------------------------------------------------------
+    def dflt_of(self, ty):
+        if ty in self.rec_dflt:
+            return self.rec_dflt[ty]
+        if ty == STR:
+            return '""%string'
+        if isinstance(ty, tuple) and ty[0] in ('tuple', 'set', 'dict'):
+            return '[]'
+        return super().dflt_of(ty)
+
+    def strterm(self, v, node=None):
+        if isinstance(v, T) and v.ty == STR:
+            return v.s
+        if isinstance(v, S) and isinstance(v.v, str):
+            return coq_string(v.v)
+        raise TB('a text was expected%s, got %r' % (' (line %d)' % node.lineno if node is not None else '', v))
+
+    def is_str(self, v):
+        return (isinstance(v, T) and v.ty == STR) or (isinstance(v, S) and isinstance(v.v, str))
+
+    def flat_schema(self, sch, prefix=''):
+        out = {}
+        for k, e in sch.items():
+            if isinstance(e, dict):
+                out.update(self.flat_schema(e, prefix + k + '.'))
+            else:
+                out[prefix + k] = e
+        return out
+
+    def flat_dct(self, d, prefix=''):
+        out = {}
+        for k, v in d.items.items():
+            if isinstance(v, Dct):
+                out.update(self.flat_dct(v, prefix + k + '.'))
+            else:
+                out[prefix + k] = v
+        return out
+
+    def rec_of_dct(self, d):
+        flat = self.flat_dct(d)
+        hits = [r for r, sch in self.records.items() if r not in self.rec_open and set(self.flat_schema(sch)) == set(flat)]
+        if len(hits) != 1:
+            raise TB('a dict display with the keys %r is not one record of the model' % sorted(flat))
+        sch = self.flat_schema(self.records[hits[0]])
+        return Rec(hits[0], {sch[k][0]: v for k, v in flat.items()}, None, fresh=1)
+
+    def rec_term(self, r):
+        sch = {p: ty for p, ty in self.flat_schema(self.records[r.rtype]).values()}
+        parts = []
+        for p in self.rec_order[r.rtype]:
+            if p in r.fields:
+                v = self.as_typed(r.fields[p], sch[p]) if p in sch else self.as_term(r.fields[p])
+                parts.append('%s := %s' % (p, v.s))
+            else:
+                if r.base is None:
+                    raise TB('field %s of a %s is not given' % (p, r.rtype))
+                parts.append('%s := (%s %s)' % (p, p, r.base.s))
+        return mk('{| ' + '; '.join(parts) + ' |}', r.rtype, r.fresh)
+
+    def as_typed(self, v, ty):
+        """v as a term of type ty (empty displays take the type wanted)"""
+        if isinstance(v, Lst) and not v.items and isinstance(ty, tuple) and ty[0] in ('list', 'tuple', 'set', 'dict'):
+            return mk('[]', ty, 2)
+        if isinstance(v, Dct) and not v.items and isinstance(ty, tuple) and ty[0] == 'dict':
+            return mk('[]', ty, 2)
+        t = self.as_term(v)
+        if coqty3(t.ty) != coqty3(ty):
+            raise TB('a %s was expected, got a %s' % (coqty3(ty), coqty3(t.ty)))
+        return t
+
+    def as_term(self, v):
+        if isinstance(v, Rec):
+            return self.rec_term(v)
+        if isinstance(v, Dct):
+            return self.rec_term(self.rec_of_dct(v))
+        if isinstance(v, S) and isinstance(v.v, str):
+            return mk(coq_string(v.v), STR, 2)
+        if isinstance(v, Tup) and v.items and all(self.is_str(x) for x in v.items) and len(v.items) == 2:
+            return mk('(%s, %s)' % tuple(self.strterm(x) for x in v.items), PROD(STR, STR), 2)
+        if isinstance(v, Lst) and v.items:
+            ts = [self.as_term(x) for x in v.items]
+            if len({coqty3(t.ty) for t in ts}) == 1:
+                return mk('[' + '; '.join(t.s for t in ts) + ']', LIST(ts[0].ty), 1)
+        if isinstance(v, Obj) and v.ident is not None:
+            return v.ident
+        return super().as_term(v)
+
+    def list_term(self, lst):
+        if lst.items and all(self.is_str(x) for x in lst.items):
+            return mk('[' + '; '.join(self.strterm(x) for x in lst.items) + ']', LIST(STR), 2)
+        return super().list_term(lst)
+
+    # ---- records -----------------------------------------------------------------------------------------------------------------
+    def field(self, base, sch, key, node):
+        if key not in sch:
+            raise TB('key %r is not a key of %r (line %d)' % (key, base, node.lineno))
+        e = sch[key]
+        if isinstance(e, dict):
+            return View(base, e)
+        if not isinstance(e, tuple):
+            return e                                   # a value given directly (documents that arrive as several Coq arguments)
+        return mk('(%s %s)' % (e[0], base.s), e[1], fresh_of(base))
+
+    def rec_get(self, r, key, node):
+        sch = self.records[r.rtype]
+        if key not in sch:
+            raise TB('key %r is not a key of a %s (line %d)' % (key, r.rtype, node.lineno))
+        e = sch[key]
+        if isinstance(e, dict):
+            raise TB('sub-dict %r of a record under construction (line %d)' % (key, node.lineno))
+        if e[0] in r.fields:
+            return r.fields[e[0]]
+        if r.base is None:
+            raise TB('field %s of a %s is not given (line %d)' % (e[0], r.rtype, node.lineno))
+        return mk('(%s %s)' % (e[0], r.base.s), e[1], r.fresh)
+
+    def open_rec(self, v):
+        if isinstance(v, Rec):
+            return Rec(v.rtype, v.fields, v.base, v.fresh)
+        if isinstance(v, Dct):
+            return self.rec_of_dct(v)
+        if isinstance(v, T) and v.ty in self.records:
+            return Rec(v.ty, {}, v, fresh_of(v))
+        raise TB('%r is not a record' % (v,))
+
+    def subscript(self, base, idx, node):
+        if isinstance(idx, S) and isinstance(idx.v, str):
+            if isinstance(base, T) and base.ty in self.records:
+                return self.field(base, self.records[base.ty], idx.v, node)
+            if isinstance(base, View):
+                return self.field(base.base, base.schema, idx.v, node)
+            if isinstance(base, Rec):
+                return self.rec_get(base, idx.v, node)
+        if isinstance(base, T) and base.ty in self.dict_types:
+            return self.dict_types[base.ty].get(self, base, idx, node)
+        if is_seq(base) and base.ty[0] in ('list', 'tuple'):
+            el = base.ty[1]
+            i = None
+            if isinstance(idx, T) and idx.ty == NAT:
+                i = idx.s
+            elif isinstance(idx, S) and isinstance(idx.v, int) and not isinstance(idx.v, bool) and idx.v >= 0:
+                i = '%d' % idx.v
+            if i is not None:
+                return mk('(nth %s %s %s)' % (i, base.s, self.dflt_of(el)), el, 2 if fresh_of(base) == 2 else 0)
+        return super().subscript(base, idx, node)
+
+    # ---- places: what an in-place update writes to ------------------------------------------------------------------------------------
+    def resolve_place(self, e, st):
+        """(root, steps): root ('env', name) | ('attr', name); steps ('key', k) | ('idx', nat term)"""
+        steps = []
+        while True:
+            if isinstance(e, ast.Name):
+                if e.id not in st.env:
+                    raise TB('update of the unbound name %s (line %d)' % (e.id, e.lineno))
+                return ('env', e.id), steps
+            if isinstance(e, ast.Attribute) and isinstance(e.value, ast.Name) and e.value.id == 'self' and 'self' not in st.env:
+                if e.attr not in st.attrs:
+                    raise TB('update of the unassigned attribute self.%s (line %d)' % (e.attr, e.lineno))
+                return ('attr', e.attr), steps
+            if isinstance(e, ast.Subscript):
+                k = self.expr(e.slice, st)
+                if isinstance(k, S) and isinstance(k.v, str):
+                    steps.insert(0, ('key', k.v))
+                elif isinstance(k, T) and k.ty == NAT:
+                    steps.insert(0, ('idx', k.s))
+                elif isinstance(k, S) and isinstance(k.v, int) and not isinstance(k.v, bool) and k.v >= 0:
+                    steps.insert(0, ('idx', '%d' % k.v))
+                else:
+                    steps.insert(0, ('dkey', k))
+                e = e.value
+                continue
+            raise TB('in-place update of %s (line %d)' % (type(e).__name__, getattr(e, 'lineno', 0)))
+
+    def root_get(self, root, st):
+        return st.env[root[1]] if root[0] == 'env' else st.attrs[root[1]]
+
+    def root_set(self, root, val, st):
+        if root[0] == 'env':
+            st.env[root[1]] = val
+        else:
+            st.attrs[root[1]] = val
+
+    def set_in(self, cur, steps, val, node):
+        if not steps:
+            return val
+        kind, k = steps[0]
+        if kind == 'key':
+            if isinstance(cur, (Rec, Dct)) or (isinstance(cur, T) and cur.ty in self.records):
+                r = self.open_rec(cur)
+                sch = self.records[r.rtype]
+                path, rest = k, steps[1:]
+                e = sch.get(k)
+                while isinstance(e, dict):
+                    if not rest or rest[0][0] != 'key':
+                        raise TB('a sub-dict is replaced as a whole (line %d)' % node.lineno)
+                    path, e, rest = path + '.' + rest[0][1], e.get(rest[0][1]), rest[1:]
+                if e is None:
+                    raise TB('key %r is not a key of a %s (line %d)' % (path, r.rtype, node.lineno))
+                old = r.fields[e[0]] if e[0] in r.fields else mk('(%s %s)' % (e[0], r.base.s), e[1], r.fresh)
+                new = self.set_in(old, rest, val, node)
+                r.fields[e[0]] = self.as_typed(new, e[1])
+                return r
+            raise TB('item assignment on %r (line %d)' % (cur, node.lineno))
+        if kind == 'dkey':
+            if isinstance(cur, T) and cur.ty in self.dict_types and len(steps) == 1:
+                return self.dict_types[cur.ty].set(self, cur, k, val, node)
+            raise TB('item assignment on %r (line %d)' % (cur, node.lineno))
+        if isinstance(cur, Lst):
+            cur = self.as_term(cur)
+        if not (is_seq(cur) and cur.ty[0] == 'list'):
+            raise TB('indexed assignment on %r (line %d)' % (cur, node.lineno))
+        el = mk('(nth %s %s %s)' % (k, cur.s, self.dflt_of(cur.ty[1])), cur.ty[1], 2 if fresh_of(cur) == 2 else 0)
+        new = self.as_typed(self.set_in(el, steps[1:], val, node), cur.ty[1])
+        return mk('(update_at %s (fun _ => %s) %s)' % (k, new.s, cur.s), cur.ty, fresh_of(cur))
+
+    def need_private(self, rootval, depth, what, node):
+        if getattr(rootval, 'aliased', False):
+            raise TB('%s (line %d) writes into an object that is bound to two names: the translation follows one of them only' % (what, node.lineno))
+        if isinstance(rootval, (Lst, Dct)) and not rootval.items:
+            return
+        if fresh_of(rootval) < min(2, depth):
+            raise TB('%s (line %d) writes into an object that is not a private copy (it may be the caller\'s document or stored state): '
+                     'the copy the model assumes is not taken' % (what, node.lineno))
+
+    def update_place(self, e, val, st, node, what, extra=0):
+        root, steps = self.resolve_place(e, st)
+        cur = self.root_get(root, st)
+        self.need_private(cur, len(steps) + extra, what, node)
+        new = self.set_in(cur, steps, val, node)
+        if isinstance(new, T) and not hasattr(new, 'fresh'):
+            new.fresh = fresh_of(cur)
+        self.root_set(root, new, st)
+
+    # ---- expressions -------------------------------------------------------------------------------------------------------------------
+    def expr(self, e, st):
+        d = dump(e)
+        for pd, val in self.patterns:
+            if pd == d:
+                return val(st) if callable(val) else val
+        if isinstance(e, ast.Name) and e.id == 'self' and 'self' not in st.env and self.cls is not None:
+            return Obj(self.cls, st.attrs, None)
+        if isinstance(e, ast.SetComp):
+            t = self.comprehension(e, st)
+            t = self.as_term(t) if not isinstance(t, T) else t
+            if not (is_seq(t) and t.ty[1] == STR):
+                raise TB('set comprehension of something else than texts (line %d)' % e.lineno)
+            return mk('(dedup %s)' % t.s, SET(STR), 2)
+        if isinstance(e, ast.Tuple) and any(isinstance(x, ast.Starred) for x in e.elts):
+            parts = []
+            for x in e.elts:
+                if not isinstance(x, ast.Starred):
+                    raise TB('tuple display mixing * and elements (line %d)' % e.lineno)
+                v = self.expr(x.value, st)
+                if isinstance(v, (Lst, Dct)) and not v.items:
+                    continue
+                if isinstance(v, T) and isinstance(v.ty, tuple) and v.ty[0] == 'dict':
+                    v = mk('(map fst %s)' % v.s, LIST(v.ty[1]), 1)
+                if not is_seq(v):
+                    raise TB('*%r in a tuple display (line %d)' % (v, e.lineno))
+                parts.append(v)
+            if not parts:
+                return Lst([])
+            if len({coqty3(p.ty[1]) for p in parts}) != 1:
+                raise TB('tuple display over mixed element types (line %d)' % e.lineno)
+            return mk('(' + ' ++ '.join(p.s for p in parts) + ')' if len(parts) > 1 else parts[0].s, LIST(parts[0].ty[1]), 1)
+        if isinstance(e, ast.IfExp):
+            c = self.test(e.test, st)
+            if isinstance(c, IsNone):
+                if self.pending:
+                    raise TB('raising call before a conditional expression (line %d)' % e.lineno)
+                var = 'x_' + (c.key[1] if c.key else 'some')
+                s_none, s_some = st.copy(), st.copy()
+                if c.key is not None and c.key[0] == 'name':
+                    s_none.env[c.key[1]] = S(None)
+                    s_some.env[c.key[1]] = mk(var, c.term.ty[1], fresh_of(c.term))
+                b_none, b_some = (e.body, e.orelse) if not c.neg else (e.orelse, e.body)
+                inner = c.term.ty[1]
+                a = self.as_typed(self.expr(b_none, s_none), inner)
+                b = self.as_typed(self.expr(b_some, s_some), inner)
+                out = a if c.term.s == 'None' else mk('(match %s with None => %s | Some %s => %s end)' % (c.term.s, a.s, var, b.s), inner, min(fresh_of(a), fresh_of(b)))
+                return out
+        if isinstance(e, ast.Subscript) and not isinstance(e.slice, ast.Slice) and isinstance(e.value, ast.Name) and e.value.id == 'self' \
+                and 'self' not in st.env and self.cls is not None:
+            fn = methods(self.cls).get('__getitem__')
+            if fn is None:
+                raise TB('self[..] without __getitem__ (line %d)' % e.lineno)
+            return self.call_method(Obj(self.cls, st.attrs, None), fn, [self.expr(e.slice, st)], {}, e, st)
+        if isinstance(e, ast.Attribute) and not (isinstance(e.value, ast.Name) and e.value.id == 'self' and 'self' not in st.env):
+            base = self.expr(e.value, st)
+            if isinstance(base, Obj):
+                return self.obj_get(base, e.attr, e, st)
+            if isinstance(base, (T, View, Rec, Lst, Dct)) and not self.is_obj(base):
+                return Method(base, e.attr)
+            if self.is_obj(base):
+                k = base.s + '\x1f' + e.attr
+                if k in st.attrs:
+                    return st.attrs[k]
+                return self.obj_attr(base, e.attr, e, st)
+            return self.attr_ext(base, e.attr, e, st)
+        return super().expr(e, st)
+
+    def self_attr(self, attr, node, st):
+        if self.cls is not None:
+            return self.obj_get(Obj(self.cls, st.attrs, None), attr, node, st)
+        raise TB('self.%s (line %d)' % (attr, node.lineno))
+
+    def class_member(self, cls, name):
+        """(FunctionDef, is_property) of the class or of a translated base class"""
+        for n in cls.body:
+            if isinstance(n, ast.FunctionDef) and n.name == name:
+                decs = [ast.unparse(d) for d in n.decorator_list]
+                if decs not in ([], ['property'], ['classmethod']):
+                    raise TB('%s.%s: decorators %r' % (cls.name, name, decs))
+                return n, decs == ['property']
+        for b in cls.bases:
+            if isinstance(b, ast.Name) and b.id in self.classes:
+                r = self.class_member(self.classes[b.id], name)
+                if r is not None:
+                    return r
+        return None
+
+    def single_return(self, fn):
+        body = [s for s in fn.body if not (isinstance(s, ast.Expr) and isinstance(s.value, ast.Constant) and isinstance(s.value.value, str))]
+        if len(body) == 1 and isinstance(body[0], ast.Return) and body[0].value is not None:
+            return body[0].value
+        return None
+
+    def obj_get(self, obj, attr, node, st):
+        if attr in obj.attrs:
+            return obj.attrs[attr]
+        m = self.class_member(obj.cls, attr)
+        if m is None:
+            raise TB('%s has no attribute %s (line %d)' % (obj.cls.name, attr, node.lineno))
+        fn, is_prop = m
+        if not is_prop:
+            return Method(obj, fn)
+        ret = self.single_return(fn)
+        if ret is None or [a.arg for a in fn.args.args] != ['self']:
+            raise TB('property %s.%s is not a single return (line %d)' % (obj.cls.name, attr, fn.lineno))
+        saved = self.cls
+        self.cls = obj.cls
+        try:
+            return self.expr(ret, St({}, obj.attrs, st.warns))
+        finally:
+            self.cls = saved
+
+    def boolop(self, op, parts, node):
+        # `a and False` / `a or True` with a free of effects: decided here (the branch that can never run is not translated)
+        for p in parts:
+            if isinstance(p, S) and not isinstance(p, IsNone):
+                b = self.truth(p)
+                if (op == 'And' and not b) or (op == 'Or' and b):
+                    if self.pending:
+                        raise TB('raising call inside and/or (line %d)' % node.lineno)
+                    return S(b)
+        return super().boolop(op, parts, node)
+
+    def test(self, e, st):
+        if isinstance(e, (ast.Compare, ast.BoolOp)) or (isinstance(e, ast.UnaryOp) and isinstance(e.op, ast.Not)):
+            if isinstance(e, ast.BoolOp):
+                vals = [self.test(v, st) for v in e.values]
+                return self.boolop(type(e.op).__name__, vals, e)
+            if isinstance(e, ast.UnaryOp):
+                return self.not_(self.test(e.operand, st))
+            return super().test(e, st)
+        v = self.expr(e, st)
+        if is_seq(v) or (isinstance(v, T) and isinstance(v.ty, tuple) and v.ty[0] == 'dict'):
+            return T('(nonempty %s)' % v.s, BOOL)
+        if isinstance(v, (Lst, Dct, Tup)):
+            return S(bool(v.items))
+        if isinstance(v, (S, IsNone)) or (isinstance(v, T) and v.ty == BOOL) or isinstance(v, Vec):
+            return v
+        raise TB('test on %r (line %d)' % (v, e.lineno))
+
+    def compare1(self, op, a, b, node):
+        opn = type(op).__name__
+        neg = lambda s, n: T('(negb %s)' % s if n else s, BOOL)
+        if opn in ('Eq', 'NotEq'):
+            if self.is_str(a) and self.is_str(b) and not (isinstance(a, S) and isinstance(b, S)):
+                return neg('(String.eqb %s %s)' % (self.strterm(a), self.strterm(b)), opn == 'NotEq')
+            for x, y in ((a, b), (b, a)):
+                if isinstance(x, T) and x.ty in self.rec_eqb and isinstance(y, T) and y.ty == x.ty:
+                    return neg('(%s %s %s)' % (self.rec_eqb[x.ty], a.s, b.s), opn == 'NotEq')
+        if opn in ('In', 'NotIn'):
+            n = opn == 'NotIn'
+            if isinstance(b, (Lst, Dct, Tup)) and not b.items:
+                return S(n)
+            if isinstance(b, T) and b.ty in self.dict_types:
+                return neg(self.dict_types[b.ty].mem(self, b, a, node), n)
+            if isinstance(b, Lst) and b.items and all(self.is_str(x) for x in b.items) and isinstance(a, T) and a.ty == STR:
+                b = self.list_term(b)
+            if self.is_str(a) and is_seq(b) and b.ty[1] == STR:
+                return neg('(mem_str %s %s)' % (self.strterm(a), b.s), n)
+            if self.is_str(a) and isinstance(b, T) and isinstance(b.ty, tuple) and b.ty[0] == 'dict' and b.ty[1] == STR:
+                return neg('(mem_str %s (map fst %s))' % (self.strterm(a), b.s), n)
+            if isinstance(a, T) and a.ty in self.rec_eqb and is_seq(b) and b.ty[1] == a.ty:
+                return neg('(existsb (%s %s) %s)' % (self.rec_eqb[a.ty], a.s, b.s), n)
+        return super().compare1(op, a, b, node)
+
+    def merge(self, c, a, b):
+        if isinstance(a, (Rec, Dct)) or isinstance(b, (Rec, Dct)):
+            ta, tb_ = self.as_term(a), self.as_term(b)
+            if coqty3(ta.ty) != coqty3(tb_.ty):
+                raise TB('cannot merge a %r and a %r under a condition' % (ta.ty, tb_.ty))
+            return mk('(if %s then %s else %s)' % (c, ta.s, tb_.s), ta.ty, min(fresh_of(ta), fresh_of(tb_)))
+        if isinstance(a, Obj) and isinstance(b, Obj) and a is b:
+            return a
+        if isinstance(a, T) and isinstance(b, T) and a.ty == b.ty and a.s == b.s:
+            return a if fresh_of(a) <= fresh_of(b) else b
+        if isinstance(a, View) and isinstance(b, View) and a.base.s == b.base.s and a.schema is b.schema:
+            return a
+        if isinstance(a, Method) or isinstance(b, Method):
+            raise TB('bound method merged under a condition')
+        for x, y, flip in ((a, b, False), (b, a, True)):
+            if isinstance(x, Lst) and not x.items and isinstance(y, T) and isinstance(y.ty, tuple) and y.ty[0] in ('list', 'set', 'tuple', 'dict'):
+                out = mk('(if %s then %s else %s)' % ((c, y.s, '[]') if flip else (c, '[]', y.s)), y.ty, min(1, fresh_of(y)))
+                return out
+        out = super().merge(c, a, b)
+        if isinstance(out, T) and out is not a and out is not b:
+            out.fresh = min(fresh_of(a), fresh_of(b))
+        return out
+
+    def comprehension(self, e, st):
+        out = super().comprehension(e, st)
+        if isinstance(out, T):
+            el = out.ty[1] if isinstance(out.ty, tuple) and len(out.ty) > 1 else None
+            out.fresh = 2 if el in (STR, NAT, BOOL, NUM, ZT) or (isinstance(el, tuple) and el[0] == 'prod') else 1
+        return out
+
+    def iter_term(self, it, node):
+        if isinstance(it, T) and isinstance(it.ty, tuple) and it.ty[0] in ('tuple', 'set'):
+            return mk(it.s, LIST(it.ty[1]), fresh_of(it))
+        if isinstance(it, T) and isinstance(it.ty, tuple) and it.ty[0] == 'dict':
+            return mk('(map fst %s)' % it.s, LIST(it.ty[1]), 1)
+        return super().iter_term(it, node)
+
+    # ---- calls -------------------------------------------------------------------------------------------------------------------------
+    def emit_call(self, text, ty, raises, fresh=2, base='r'):
+        if not raises:
+            return mk(text, ty, fresh)
+        var = self.fresh_var(base)
+        self.pending.append(('tpl', '(match %s with Err e => Err e | Ok %s => @@0@@ end)' % (text, var)))
+        return mk(var, ty, fresh)
+
+    def wrap_pending(self, st, k):
+        pend, self.pending = self.pending, []
+
+        def build(i):
+            if i == len(pend):
+                return k()
+            p = pend[i]
+            if p[0] == 'tpl':
+                return Br2(p[1], (build(i + 1),))
+            scrut, var, exc = p
+            if exc is None:
+                return Br2('(let %s := %s in @@0@@)' % (var, scrut), (build(i + 1),))
+            return Branch('opt', scrut, (Exc(exc, st), build(i + 1)), var)
+        return build(0)
+
+    def call(self, e, st):
+        f = self.expr(e.func, st)
+        star = any(isinstance(a, ast.Starred) for a in e.args) or any(k.arg is None for k in e.keywords)
+        if star:
+            return self.call_star(f, e, st)
+        args = [self.expr(a, st) for a in e.args]
+        kwargs = {k.arg: self.expr(k.value, st) for k in e.keywords}
+        if isinstance(f, Fun):
+            return self.call_fun(f, args, kwargs, st, e)
+        if isinstance(f, Clo):
+            if args or kwargs:
+                raise TB('call of a local function with arguments (line %d)' % e.lineno)
+            return self.call_clo(f, st, e)
+        if isinstance(f, Method):
+            if isinstance(f.fn, str):
+                return self.method(f.obj, f.fn, args, kwargs, e, st)
+            return self.call_method(f.obj, f.fn, args, kwargs, e, st)
+        if isinstance(f, Ext) and f.tag.startswith('class:'):
+            return self.construct(self.classes[f.tag[6:]], args, kwargs, e, st)
+        if isinstance(f, Ext) and f.tag.startswith('gen:'):
+            return self.call_gen(f.tag[4:], args, kwargs, e, st)
+        if isinstance(f, Ext):
+            r = self.call_builtin(f, args, kwargs, e, st)
+            if r is not None:
+                return r
+            return self.call_ext(f, args, kwargs, e, st)
+        raise TB('call of %r (line %d)' % (f, e.lineno))
+
+    def call_gen(self, key, args, kwargs, node, st, skip_self=False):
+        fn, handler = self.gens[key]
+        bound, params, extra = bind_call(fn, args, kwargs, skip_self=skip_self, what=str(key))
+        if extra:
+            raise TB('%s: unknown keywords (line %d)' % (key, node.lineno))
+        for p, dv in defaults_of(fn).items():
+            if p not in bound and p in params:
+                bound[p] = self.expr(dv, St())
+        if set(bound) != set(params):
+            raise TB('%s: missing arguments (line %d)' % (key, node.lineno))
+        out = handler(bound, node, st)
+        if isinstance(out, T):
+            out.from_gen = True
+        return out
+
+    def call_method(self, obj, fn, args, kwargs, node, st):
+        """a method of a translated class in expression position: inlined when its body is a single return"""
+        if (obj.cls.name, fn.name) in self.gens:
+            return self.call_gen((obj.cls.name, fn.name), args, kwargs, node, st, skip_self=True)
+        ret = self.single_return(fn)
+        if ret is None:
+            raise TB('%s.%s is not a single return: it cannot be inlined into an expression (line %d)' % (obj.cls.name, fn.name, node.lineno))
+        bound, params, extra = bind_call(fn, args, kwargs, skip_self=True)
+        if extra:
+            raise TB('%s.%s: unknown keywords (line %d)' % (obj.cls.name, fn.name, node.lineno))
+        for p, dv in defaults_of(fn).items():
+            if p not in bound:
+                bound[p] = self.expr(dv, St())
+        if set(bound) != set(params):
+            raise TB('%s.%s: missing arguments (line %d)' % (obj.cls.name, fn.name, node.lineno))
+        saved = self.cls
+        self.cls = obj.cls
+        try:
+            return self.expr(ret, St(bound, obj.attrs, st.warns))
+        finally:
+            self.cls = saved
+
+    def method(self, base, name, args, kwargs, node, st):
+        ln = node.lineno
+        if isinstance(base, T) and isinstance(base.ty, tuple) and base.ty[0] == 'dict':
+            if name == 'items' and not args and not kwargs:
+                return mk(base.s, LIST(PROD(base.ty[1], base.ty[2])), 1)
+            if name == 'keys' and not args and not kwargs:
+                return mk('(map fst %s)' % base.s, LIST(base.ty[1]), 1)
+            if name == 'values' and not args and not kwargs:
+                return mk('(map snd %s)' % base.s, LIST(base.ty[2]), 1)
+            if name == 'get' and len(args) == 2 and not kwargs and base.ty[1] == STR:
+                d = self.as_typed(args[1], base.ty[2])
+                return mk('(match assoc %s %s with Some y => y | None => %s end)' % (self.strterm(args[0], node), base.s, d.s), base.ty[2], 0)
+        if isinstance(base, Dct) and not base.items:
+            if name == 'get' and len(args) == 2 and not kwargs:
+                return args[1]
+            if name in ('items', 'keys', 'values') and not args and not kwargs:
+                return Lst([])
+        if is_seq(base) and name == 'index' and len(args) == 1 and not kwargs and base.ty[1] == STR:
+            return T('(index_of %s %s)' % (self.strterm(args[0], node), base.s), NAT)
+        if isinstance(base, T) and base.ty == SET(STR) and name == 'intersection' and len(args) == 1 and not kwargs and is_seq(args[0]) and args[0].ty[1] == STR:
+            return mk('(filter (fun n => mem_str n %s) %s)' % (args[0].s, base.s), SET(STR), 2)
+        if isinstance(base, T) and base.ty == 'counter' and name == 'items' and not args and not kwargs:
+            return mk('(map (fun n => (n, count_str n %s)) (dedup %s))' % (base.s, base.s), LIST(PROD(STR, NAT)), 2)
+        return self.method_ext(base, name, args, kwargs, node, st)
+
+    def call_builtin(self, f, args, kwargs, e, st):
+        tag = f.tag
+        if tag == 'copy.deepcopy' and len(args) == 1 and not kwargs:
+            v = args[0]
+            if isinstance(v, T):
+                return mk(v.s, v.ty, 2)
+            if isinstance(v, Rec):
+                return Rec(v.rtype, v.fields, v.base, 2)
+            if isinstance(v, (Lst, Dct)) and not v.items:
+                return v
+            raise TB('deepcopy of %r (line %d)' % (v, e.lineno))
+        if tag == 'dict':
+            if not args and not kwargs:
+                return Dct({})
+            if len(args) == 1:
+                v = args[0]
+                if isinstance(v, Obj) and v.ident is not None and not kwargs:
+                    v = v.ident
+                if isinstance(v, (Rec, Dct)) or (isinstance(v, T) and v.ty in self.records):
+                    r = self.open_rec(v)
+                    r.fresh = 1
+                    sch = self.records[r.rtype]
+                    for k, x in kwargs.items():
+                        if k not in sch or isinstance(sch[k], dict):
+                            raise TB('dict(.., %s=..) on a %s (line %d)' % (k, r.rtype, e.lineno))
+                        r.fields[sch[k][0]] = self.as_typed(x, sch[k][1])
+                    return self.rec_term(r) if r.base is not None else r
+                if not kwargs and is_seq(v) and v.ty[1] == PROD(STR, STR):
+                    return mk('(dict_of_pairs %s)' % v.s, DICT(STR, STR), 2)
+            raise TB('dict(..) (line %d)' % e.lineno)
+        if tag == 'list' and len(args) == 1 and not kwargs and isinstance(args[0], T) and isinstance(args[0].ty, tuple) and args[0].ty[0] in ('list', 'set', 'tuple'):
+            return mk(args[0].s, LIST(args[0].ty[1]), max(1, min(fresh_of(args[0]), 2)) if args[0].ty[1] in (STR, NAT) else 1)
+        if tag == 'tuple' and len(args) == 1 and not kwargs and is_seq(args[0]):
+            return mk(args[0].s, TUPLE(args[0].ty[1]), 2)
+        if tag == 'len' and len(args) == 1 and not kwargs and isinstance(args[0], T) and isinstance(args[0].ty, tuple) and args[0].ty[0] in ('list', 'set', 'tuple', 'dict'):
+            return T('(length %s)' % args[0].s, NAT)
+        if tag == 'isinstance' and len(args) == 2 and not kwargs and isinstance(args[1], Ext) and args[1].tag in ('list', 'tuple', 'str'):
+            v = args[0]
+            kind = None
+            if isinstance(v, T) and isinstance(v.ty, tuple) and v.ty[0] in ('list', 'tuple'):
+                kind = v.ty[0]
+            elif self.is_str(v):
+                kind = 'str'
+            elif isinstance(v, T) and v.ty in ('pyother',):
+                kind = 'other'
+            if kind is None:
+                raise TB('isinstance of %r (line %d)' % (v, e.lineno))
+            return S(kind == args[1].tag)
+        if tag == 'collections.Counter' and len(args) == 1 and not kwargs and is_seq(args[0]) and args[0].ty[1] == STR:
+            return mk(args[0].s, 'counter', 2)
+        if tag == 'set' and len(args) == 1 and not kwargs and is_seq(args[0]) and args[0].ty[1] == STR:
+            return mk('(dedup %s)' % args[0].s, SET(STR), 2)
+        return super().call_builtin(f, args, kwargs, e, st)
+
+    def attr_ext(self, base, attr, node, st):
+        if isinstance(base, Ext) and base.tag in ('copy', 'collections') and attr in ('deepcopy', 'Counter'):
+            return Ext(base.tag + '.' + attr)
+        return super().attr_ext(base, attr, node, st)
+
+    # ---- statements ------------------------------------------------------------------------------------------------------------------------
+    def assign(self, target, val, st, node):
+        if isinstance(target, ast.Subscript):
+            self.update_place(target, val, st, node, 'the item assignment')
+            return
+        if isinstance(target, ast.Name) and isinstance(getattr(node, 'value', None), ast.Name) and isinstance(val, (T, Rec, Lst, Dct)) \
+                and not (isinstance(val, T) and val.ty in (STR, NAT, BOOL, NUM, ZT)):
+            try:
+                val.aliased = True                   # a second name for the same mutable object
+            except AttributeError:
+                pass
+        if isinstance(target, ast.Name) and isinstance(val, (Obj, View, Rec, Method)):
+            st.env[target.id] = val
+            return
+        if isinstance(target, ast.Attribute) and isinstance(target.value, ast.Name) and target.value.id == 'self' and 'self' not in st.env:
+            st.attrs[target.attr] = val
+            return
+        super().assign(target, val, st, node)
+
+    def mutator(self, e, st):
+        """expression statements that update a place: l.append(x), l.sort(key=..), d.setdefault(k, []).append(x)"""
+        if not (isinstance(e, ast.Call) and isinstance(e.func, ast.Attribute)):
+            return False
+        m, tgt = e.func.attr, e.func.value
+        if m == 'append' and len(e.args) == 1 and not e.keywords:
+            if isinstance(tgt, ast.Call) and isinstance(tgt.func, ast.Attribute) and tgt.func.attr == 'setdefault' and len(tgt.args) == 2 \
+                    and not tgt.keywords and isinstance(tgt.args[1], ast.List) and not tgt.args[1].elts:
+                root, steps = self.resolve_place(tgt.func.value, st)
+                cur = self.root_get(root, st)
+                k = self.strterm(self.expr(tgt.args[0], st), e)
+                x = self.as_term(self.expr(e.args[0], st))
+                if isinstance(cur, Dct) and not cur.items and not steps:
+                    cur = mk('[]', DICT(STR, LIST(x.ty)), 2)
+                if steps or not (isinstance(cur, T) and cur.ty == DICT(STR, LIST(x.ty))):
+                    raise TB('setdefault(..).append on %r (line %d)' % (cur, e.lineno))
+                self.need_private(cur, 1, 'setdefault(..).append', e)
+                self.root_set(root, mk('(dl_append %s %s %s)' % (cur.s, k, x.s), cur.ty, 1), st)
+                return True
+            root, steps = self.resolve_place(tgt, st)
+            cur = self.expr(tgt, st)
+            x = self.expr(e.args[0], st)
+            if isinstance(x, Obj) and x.ident is not None:
+                x = x.ident
+            if isinstance(cur, Lst) and not cur.items:
+                xt = self.as_term(x)
+                new = mk('[%s]' % xt.s, LIST(xt.ty), 2 if (fresh_of(xt) == 2 or xt.ty in (STR, NAT)) else 1)
+            else:
+                if isinstance(cur, Lst):
+                    cur = self.as_term(cur)
+                if not (is_seq(cur) and cur.ty[0] == 'list'):
+                    raise TB('append to %r (line %d)' % (cur, e.lineno))
+                xt = self.as_typed(x, cur.ty[1])
+                lvl = fresh_of(self.root_get(root, st)) if not steps else fresh_of(cur)
+                new = mk('(%s ++ [%s])' % (cur.s, xt.s), cur.ty, min(lvl, 2 if (fresh_of(xt) == 2 or xt.ty in (STR, NAT) or (isinstance(xt.ty, tuple) and xt.ty[0] == 'prod')) else 1))
+            rootval = self.root_get(root, st)
+            self.need_private(rootval, len(steps) + 1, '.append', e)
+            newroot = self.set_in(rootval, steps, new, e) if steps else new
+            self.root_set(root, newroot, st)
+            return True
+        if m == 'sort' and not e.args and [k.arg for k in e.keywords] == ['key']:
+            cur = self.expr(tgt, st)
+            if isinstance(cur, Lst):
+                cur = self.as_term(cur)
+            if not (is_seq(cur) and cur.ty[0] == 'list'):
+                raise TB('sort of %r (line %d)' % (cur, e.lineno))
+            kf = self.expr(e.keywords[0].value, st)
+            if not isinstance(kf, Fun) or len(kf.params) != 1:
+                raise TB('sort key is not a one-argument function (line %d)' % e.lineno)
+            var = self.fresh_var('e')
+            kv = self.call_fun(kf, [mk(var, cur.ty[1], 0)], {}, st, e)
+            if self.is_str(kv):
+                new = '(ssort (fun %s => %s) %s)' % (var, self.strterm(kv), cur.s)
+            elif isinstance(kv, Tup) and len(kv.items) == 2 and all(self.is_str(x) for x in kv.items):
+                new = '(psort (fun %s => (%s, %s)) %s)' % (var, self.strterm(kv.items[0]), self.strterm(kv.items[1]), cur.s)
+            else:
+                raise TB('sort key %r (line %d)' % (kv, e.lineno))
+            self.update_place(tgt, mk(new, cur.ty, fresh_of(cur)), st, e, '.sort', extra=1)
+            return True
+        return False
+
+    def effect_stmt(self, e, st):
+        """hook: expression statements with a meaning of their own; True when handled"""
+        return False
+
+    def effect_call(self, e, st):
+        v = self.expr(e, st)
+        if isinstance(v, T) and getattr(v, 'from_gen', False):
+            return                                                # a translated function called for its possible error only
+        raise TB('expression statement (line %d)' % e.lineno)
+
+    def expr_stmt(self, e, st):
+        if self.mutator(e, st):
+            return
+        if self.effect_stmt(e, st):
+            return
+        if isinstance(e, ast.Call) and isinstance(e.func, ast.Attribute):
+            base = e.func.value
+            if isinstance(base, ast.Name) and base.id == 'log' and e.func.attr in ('info', 'debug') and isinstance(self.expr(base, st), Ext):
+                return                                            # logging below warning level: not an observable
+        super().expr_stmt(e, st)
+
+    def stmt(self, s, st, rest):
+        if isinstance(s, ast.AnnAssign) and s.value is not None and s.simple in (0, 1):
+            n = ast.Assign(targets=[s.target], value=s.value)
+            ast.copy_location(n, s)
+            return super().stmt(n, st, rest)
+        if isinstance(s, ast.Try):
+            simple_assert = (len(s.body) == 1 and isinstance(s.body[0], ast.Assert))
+            if not simple_assert:
+                if len(s.handlers) != 1 or s.orelse or s.finalbody or s.handlers[0].name is not None:
+                    raise TB('try statement shape (line %d)' % s.lineno)
+                ty = s.handlers[0].type
+                cname = ty.id if isinstance(ty, ast.Name) else ty.attr if isinstance(ty, ast.Attribute) else None
+                if cname is None:
+                    raise TB('try statement: handler type (line %d)' % s.lineno)
+                self.pending = []
+                o = self.block(s.body, st.copy())
+
+                def k(leaf):
+                    if isinstance(leaf, Exc) and leaf.name == cname:
+                        return self.block(s.handlers[0].body, leaf.st.copy())
+                    return leaf
+                o = map_leaves(o, k)
+                return self.cont(o, rest)
+        return super().stmt(s, st, rest)
+
+    # ---- loops ---------------------------------------------------------------------------------------------------------------------------------
+    MUTATORS = ('append', 'sort', 'extend', 'update', 'setdefault', 'pop', 'insert', 'remove', 'clear', 'add')
+
+    def root_of(self, e):
+        while True:
+            if isinstance(e, ast.Name):
+                return ('env', e.id)
+            if isinstance(e, ast.Attribute) and isinstance(e.value, ast.Name) and e.value.id == 'self':
+                return ('attr', e.attr)
+            if isinstance(e, (ast.Subscript, ast.Attribute)):
+                e = e.value
+            elif isinstance(e, ast.Call) and isinstance(e.func, ast.Attribute):
+                e = e.func.value
+            else:
+                return None
+
+    def mutated_roots(self, body):
+        out = []
+
+        def add(r):
+            if r is not None and r not in out:
+                out.append(r)
+        for stmt_ in body:
+            for n in ast.walk(stmt_):
+                if isinstance(n, (ast.Assign, ast.AugAssign, ast.AnnAssign)):
+                    tgts = n.targets if isinstance(n, ast.Assign) else [n.target]
+                    for t in tgts:
+                        for x in (t.elts if isinstance(t, (ast.Tuple, ast.List)) else [t]):
+                            add(self.root_of(x))
+                elif isinstance(n, ast.For):
+                    for x in ast.walk(n.target):
+                        if isinstance(x, ast.Name):
+                            add(('env', x.id))
+                elif isinstance(n, ast.Call) and isinstance(n.func, ast.Attribute) and n.func.attr in self.MUTATORS:
+                    add(self.root_of(n.func.value))
+                elif isinstance(n, (ast.NamedExpr, ast.Delete, ast.With, ast.Global, ast.Nonlocal)):
+                    raise TB('statement %s inside a loop (line %d)' % (type(n).__name__, n.lineno))
+        return out
+
+    def for_stmt(self, s, st, rest):
+        b = s.body
+        if not s.orelse and len(b) == 1 and isinstance(b[0], ast.If) and not b[0].orelse and len(b[0].body) == 1 and isinstance(b[0].body[0], ast.Raise):
+            return self.find_first_loop(s, st, rest)
+        if s.orelse:
+            raise TB('for .. else (line %d)' % s.lineno)
+        roots = self.mutated_roots(s.body)
+        tnames = [n.id for n in ast.walk(s.target) if isinstance(n, ast.Name)]
+        if any(r == ('env', t) for r in roots for t in tnames):
+            if len(tnames) != 1 or [r for r in roots if r[0] == 'attr' or (r[1] not in tnames and r[1] in st.env)]:
+                raise TB('loop (line %d) updates its loop variable and other state' % s.lineno)
+            return self.map_loop(s, st, rest, tnames[0])
+        return self.fold_loop(s, st, rest, roots, tnames)
+
+    def find_first_loop(self, s, st, rest):
+        """for pat in it: if c: raise E(..)   (as Exec2.for_stmt; an empty static sequence runs no iteration)"""
+        itv = self.expr(s.iter, st)
+        if isinstance(itv, (Lst, Tup, Dct)) and not itv.items:
+            return None
+        it = self.iter_term(itv, s)
+        names = [n.id for n in ast.walk(s.target) if isinstance(n, ast.Name)]
+        var = 'x_' + '_'.join(names)
+        st2 = st.copy()
+        self.bind_pattern(s.target, mk(var, it.ty[1], 0), st2, s)
+        c = self.test(s.body[0].test, st2)
+        if isinstance(c, (S, IsNone, Vec)):
+            raise TB('for loop: test (line %d)' % s.lineno)
+        exc = self.block(s.body[0].body, st2)
+        tpl = '(match find_first (fun %s => %s) %s with Some %s => @@0@@ | None => @@1@@ end)' % (var, self.boolterm(c), it.s, var)
+        return Br2(tpl, (exc, self.block(rest, st)))
+
+    def map_loop(self, s, st, rest, tname):
+        """for x in place: <updates of x in place>      ==      place[:] = [x' for x in place]"""
+        root, steps = self.resolve_place(s.iter, st)
+        cur = self.expr(s.iter, st)
+        if not (is_seq(cur) and cur.ty[0] == 'list'):
+            raise TB('loop over %r (line %d)' % (cur, s.lineno))
+        rootval = self.root_get(root, st)
+        self.need_private(rootval, 2, 'the loop updating the elements of a list', s)
+        var = self.fresh_var(tname)
+        st2 = st.copy()
+        st2.env[tname] = mk(var, cur.ty[1], 2)
+        o = self.block(s.body, st2)
+        if not isinstance(o, Fall):
+            raise TB('loop (line %d): the body branches, returns or raises' % s.lineno)
+        for k, v in st.env.items():
+            if k != tname and o.st.env.get(k) is not v:
+                raise TB('loop (line %d) updates %s besides its loop variable' % (s.lineno, k))
+        if o.st.attrs != st.attrs:
+            raise TB('loop (line %d) updates self besides its loop variable' % s.lineno)
+        new = self.as_typed(o.st.env[tname], cur.ty[1])
+        newlist = mk('(map (fun %s => %s) %s)' % (var, new.s, cur.s), cur.ty, fresh_of(cur))
+        st3 = st.copy()
+        self.root_set(root, self.set_in(rootval, steps, newlist, s) if steps else newlist, st3)
+        st3.env.pop(tname, None)
+        return st3
+
+    def fold_loop(self, s, st, rest, roots, tnames):
+        itv = self.expr(s.iter, st)
+        if self.pending:
+            raise TB('raising call in the sequence of a loop (line %d)' % s.lineno)
+        if isinstance(itv, (Lst, Tup, Dct)) and not itv.items:
+            return None
+        it = self.iter_term(itv, s)
+        indexed = self.loop_indexed(s, st)
+        state = [r for r in roots if (r[0] == 'env' and r[1] in st.env and r[1] not in tnames) or (r[0] == 'attr' and r[1] in st.attrs)]
+        temps = [r[1] for r in roots if r[0] == 'env' and r[1] not in st.env]
+        init = [self.root_get(r, st) for r in state]
+        xvar, svar = self.fresh_var('x'), self.fresh_var('s')
+
+        def run(vals):
+            st2 = st.copy()
+            for r, v in zip(state, vals):
+                self.root_set(r, v, st2)
+            elt = mk('(snd %s)' % xvar if indexed else xvar, it.ty[1], 0)
+            if indexed:
+                st2.env['\x00index'] = T('(fst %s)' % xvar, NAT)
+            self.bind_pattern(s.target, elt, st2, s)
+            saved = self.nvar
+            o = self.block(s.body, st2)
+            return o, saved
+
+        def leaves(o):
+            if isinstance(o, Branch):
+                return [l for c in o.cases for l in leaves(c)]
+            return [o]
+        # types (and privacy levels) of the state: displays that are still empty before the loop take the type the body gives them
+        tys, lv = [None] * len(state), [fresh_of(v) if isinstance(v, (T, Rec)) else 2 for v in init]
+        for rnd in range(4):
+            vals = []
+            for i, (r, v) in enumerate(zip(state, init)):
+                if tys[i] is None and isinstance(v, T):
+                    tys[i] = v.ty
+                if tys[i] is None:
+                    vals.append(v)                      # still an empty display: discovery round
+                else:
+                    vals.append(mk(self.comp(svar, i, len(state)), tys[i], lv[i]))
+            nv0 = self.nvar
+            o, _ = run(vals)
+            changed = False
+            for l in leaves(o):
+                if isinstance(l, Ret):
+                    raise TB('return inside a loop (line %d)' % s.lineno)
+                if isinstance(l, Fall):
+                    for i, r in enumerate(state):
+                        v = self.root_get(r, l.st)
+                        if isinstance(v, (Lst, Dct)) and not v.items:
+                            continue
+                        v = v if isinstance(v, T) else self.as_term(v)
+                        if tys[i] is None:
+                            tys[i], changed = v.ty, True
+                        elif coqty3(v.ty) != coqty3(tys[i]):
+                            raise TB('loop (line %d): %s changes type' % (s.lineno, r[1]))
+                        if fresh_of(v) < lv[i]:
+                            lv[i], changed = fresh_of(v), True
+            if not changed:
+                break
+            self.nvar = nv0
+        else:
+            raise TB('loop (line %d): the state does not settle' % s.lineno)
+        if any(t is None for t in tys):
+            raise TB('loop (line %d): the type of %s is not determined' % (s.lineno, [r[1] for r, t in zip(state, tys) if t is None]))
+        raising = self.raises(o)
+
+        def tuple_of(l_st):
+            comps = []
+            for r, ty in zip(state, tys):
+                comps.append(self.as_typed(self.root_get(r, l_st), ty).s)
+            return self.tup(comps)
+
+        def leaf(l):
+            if isinstance(l, Exc):
+                return '(Err %s)' % self.exc_term(l.name)
+            return ('(Ok %s)' if raising else '%s') % tuple_of(l.st)
+        body = render2(o, leaf)
+        inits = self.tup([self.as_typed(v, ty).s for v, ty in zip(init, tys)])
+        seq_ = '(combine (seq 0 (length %s)) %s)' % (it.s, it.s) if indexed else it.s
+        rvar = self.fresh_var('r')
+        st3 = st.copy()
+        for i, (r, ty) in enumerate(zip(state, tys)):
+            self.root_set(r, mk(self.comp(rvar, i, len(state)), ty, lv[i]), st3)
+        for t in temps + tnames:
+            st3.env.pop(t, None)
+        if raising:
+            tpl = '(match foldM (fun %s %s => %s) %s %s with Err e => Err e | Ok %s => @@0@@ end)' % (svar, xvar, body, seq_, inits, rvar)
+        else:
+            tpl = '(let %s := fold_left (fun %s %s => %s) %s %s in @@0@@)' % (rvar, svar, xvar, body, seq_, inits)
+        return Br2(tpl, (self.block(rest, st3),))
+
+    def tup(self, xs):
+        if not xs:
+            return 'tt'
+        return xs[0] if len(xs) == 1 else '(' + ', '.join(xs) + ')'
+
+    def comp(self, var, i, n):
+        """component i of the left-nested n-tuple var"""
+        if n == 1:
+            return var
+        cur = var
+        for _ in range(n - 1 - i):
+            cur = '(fst %s)' % cur
+        return cur if i == 0 else '(snd %s)' % cur
+
+    # ---- rendering ---------------------------------------------------------------------------------------------------------------------------
+    def raises(self, o):
+        if isinstance(o, Br2):
+            return '(Err ' in o.scrut or 'Err e' in o.scrut or any(self.raises(c) for c in o.cases)
+        if isinstance(o, Branch):
+            return any(self.raises(c) for c in o.cases)
+        return isinstance(o, Exc)
+
+    def render_fn(self, o, ty=None, fall=None):
+        """(Coq term, raises): the outcome tree of a function body; `fall` is what a path that ends without return gives"""
+        r = self.raises(o)
+
+        def leaf(l):
+            if isinstance(l, Exc):
+                return '(Err %s)' % self.exc_term(l.name)
+            if isinstance(l, Fall):
+                if fall is None:
+                    raise TB('a path ends without a return')
+                t = fall(l.st)
+            else:
+                t = self.as_typed(l.val, ty) if ty is not None else self.as_term(l.val)
+            return '(Ok %s)' % t.s if r else t.s
+        return render2(o, leaf), r
